@@ -24,6 +24,13 @@ public class ResOps {
         for (int i = 0; i < x.length; i++) if (x[i] == t) return IntValue.gen(i + 1);
         return IntValue.gen(0);
     }
+    public static Value RIndicesOf(Value v, Value xv) {
+        double[] x = IEEE.vec(v);
+        double t = IEEE.d(xv);
+        java.util.ArrayList<Value> r = new java.util.ArrayList<>();
+        for (int i = 0; i < x.length; i++) if (x[i] == t) r.add(IntValue.gen(i + 1));
+        return new tlc2.value.impl.SetEnumValue(r.toArray(new Value[0]), true);
+    }
     public static Value RColumn(Value v, Value j, Value stride, Value count) {
         TupleValue t = (TupleValue) v.toTuple();
         int jj = ((IntValue) j).val, st = ((IntValue) stride).val, n = ((IntValue) count).val;
